@@ -56,6 +56,74 @@ def isinstance_names(test) -> Set[str]:
   return out
 
 
+def buildable_facets(ctx: Ctx, rs: RuleSet, rule: str, only=None):
+  """The builder compares the facets of two aligned Buildables - callable,
+
+  argument tags, arguments of old, arguments of new - independently: each
+  comparison is reached on every normal path through record_buildable_diffs
+  (it is not skipped because another facet differed).
+  """
+  f = ctx.func(f'{D}._DiffFromAlignmentBuilder.record_buildable_diffs')
+  g = ctx.cfg(f)
+  old_p, new_p = f.params[2], f.params[3]
+  facets = {'callable': [], 'tags': [], 'old-arguments': [],
+            'new-arguments': []}
+  for n in g.nodes():
+    st = g.stmt[n]
+    if g.kind[n] == 'if':
+      t = unparse(st.test)
+      if 'get_callable(' in t and old_p in t and new_p in t:
+        facets['callable'].append(n)
+      if f'{old_p}.__argument_tags__' in t and f'{new_p}.__argument_tags__' in t:
+        facets['tags'].append(n)
+    elif g.kind[n] == 'for':
+      it = unparse(st.iter)
+      if it == f'{old_p}.__arguments__':
+        facets['old-arguments'].append(n)
+      elif it == f'{new_p}.__arguments__':
+        facets['new-arguments'].append(n)
+    elif g.kind[n] == 'stmt' and any(
+        isinstance(e, ast.Call) and unparse(e.func).endswith(
+            '.record_tag_diffs') for e in cfg_lib.walk_node(g, n)):
+      # an unconditional call compares the tags itself
+      if not any(g.dominated_by(n, {m}, labels=cfg_lib.NO_EXC)
+                 for m in facets['tags']):
+        facets['tags'].append(n)
+  for name, nodes in facets.items():
+    if only and name not in only:
+      continue
+    if not nodes:
+      raise AnalysisError(f'{f.qualname}: comparison of the {name} facet not '
+                          'found')
+    ok = g.exit not in g.reach([g.entry], blocked=set(nodes),
+                               labels=cfg_lib.NO_EXC)
+    path = [] if ok else (g.find_path(g.entry, {g.exit}, blocked=set(nodes))
+                          or [])
+    rs.check(ok, rule, f'{f.qualname}:{name}',
+             f'the {name} of the two Buildables are compared on every path'
+             if ok else
+             f'a path through record_buildable_diffs skips the comparison of '
+             f'the {name} (it depends on another facet having compared equal): '
+             'a diff between configurations that differ in both facets drops '
+             f'the {name} changes, and apply_diff does not reproduce the '
+             'target', ctx.loc(f, g.stmt[nodes[0]]),
+             witness=[g.describe(x) for x in path])
+  if not only or 'tags' in only:
+    tag_ifs = [n for n in facets['tags'] if g.kind[n] == 'if']
+    for m in tag_ifs:
+      tr = g.reach([x for x, lab in g.succ[m] if lab == 'true'],
+                   labels=cfg_lib.NO_EXC)
+      calls = [n for n in tr if g.kind[n] == 'stmt' and any(
+          isinstance(e, ast.Call) and unparse(e.func).endswith(
+              '.record_tag_diffs') for e in cfg_lib.walk_node(g, n))]
+      ok = bool(calls) and g.exit not in g.reach(
+          [x for x, lab in g.succ[m] if lab == 'true'], blocked=set(calls),
+          labels=cfg_lib.NO_EXC)
+      rs.check(ok, rule, f'{f.qualname}:tags-recorded',
+               'differing tag dictionaries always reach record_tag_diffs',
+               ctx.loc(f, g.stmt[m]))
+
+
 def dispatch_ends_in_raise(f) -> Tuple[bool, List[str]]:
   """The outermost if/elif chain over isinstance(...) ends with else: raise."""
   kinds = []
@@ -243,6 +311,11 @@ def run(ctx: Ctx, rs: RuleSet, tier: str):
   rs.check(ok and len(raises) >= 2, rule, f'{vc.qualname}:root',
            'a change whose target is the root is an error; collected errors '
            'raise', ctx.loc(vc, vc.node))
+
+  # ---- facets of an aligned Buildable are compared independently
+  rs.declare('INDEP.buildable-facets', 'callable, tags, old and new arguments '
+             'of aligned Buildables are each compared on every path', 4)
+  buildable_facets(ctx, rs, 'INDEP.buildable-facets')
 
   # ---- memoizable values are "equal" only if aligned
   rule = 'DOM.aligned-or-equal'
